@@ -11,11 +11,12 @@ VARIABLES l,
           cmAt,          \* height -> << commitments the block adds to the Sapling, Orchard, Ironwood tree >>
           covered,       \* retention-grid heights that lay inside a successfully scanned batch and were not rewound since
           lostOK,        \* << h, pool >>: boundaries the *known finding* C06-retained-boundary-lost explains (see below)
+          locks,         \* C08: note -> << owner, expiry height >> (the lock columns of the received-note tables)
           mck, mret      \* Layer B (TreeOps, as on the pinned tree): the checkpoint ids / retained registrations the
                          \* transcribed update_tree predicts per pool; used only to recognise the known finding
 Rec == ndJsonDeserialize(IOEnv.TRACE)
 cvars == << grid, gbase, cmAt, covered, lostOK, mck, mret >>
-tvars == << wvars, l, cvars >>
+tvars == << wvars, l, cvars, locks >>
 
 \* Known findings (DESIGN C06, known_findings.json).  The check enables an excuse only while the finding
 \* is listed as open; each use is printed so that the check can report it as KNOWN-FINDING.
@@ -93,6 +94,9 @@ PostAgrees(post) ==
                   /\ post.bal.S = << LedgerP("S"), LedgerDustP("S") >>
                   /\ post.bal.O = << LedgerP("O"), LedgerDustP("O") >>
                   /\ post.bal.I = << LedgerP("I"), LedgerDustP("I") >>
+       /\ (IOEnv.CHECK_LOCKS = "1" /\ "locks" \in DOMAIN post) =>   \* C08: lock state as stored, and as the API reports it
+             /\ { << r[1], r[2], r[3] >> : r \in SeqToSet(post.locks.rows) } = { << n, locks'[n][1], locks'[n][2] >> : n \in DOMAIN locks' }
+             /\ (tip' # -1 => SeqToSet(post.locks.api) = { n \in DOMAIN locks' : locks'[n][2] >= tip' + 1 })
        /\ (IOEnv.CHECK_TREES = "1") => TreesOK(post.trees, scanned', taint', covered', lostOK')
 
 \* EXPLAIN=1 (debugging aid): a disagreeing projection is printed and the trace continues
@@ -107,19 +111,19 @@ TReset == /\ IsEvent("reset")
           /\ chain' = << >> /\ top' = 0 /\ scanned' = {} /\ txs' = << >> /\ known' = {}
           /\ ninfo' = << >> /\ links' = {} /\ tip' = -1 /\ maxFrom' = 0 /\ taint' = FALSE
           /\ grid' = Rec[l].grid /\ gbase' = Rec[l].gbase /\ cmAt' = << >> /\ covered' = {} /\ lostOK' = {}
-          /\ mck' = EmptyCk /\ mret' = EmptyCk
+          /\ mck' = EmptyCk /\ mret' = EmptyCk /\ locks' = << >>
           /\ PostOK(Rec[l].post)
 
 TBlock == /\ IsEvent("block")
           /\ Block(Rec[l].h, Rec[l].b, Rec[l].txs)
           /\ cmAt' = [x \in 1..Rec[l].h |-> IF x = Rec[l].h THEN Rec[l].cm ELSE cmAt[x]]
-          /\ UNCHANGED << grid, gbase, covered, lostOK, mck, mret >>
+          /\ UNCHANGED << grid, gbase, covered, lostOK, mck, mret, locks >>
           /\ PostOK(Rec[l].post)
 
 TTip == /\ IsEvent("tip")
         /\ Rec[l].res = "ok"
         /\ UpdateTip(Rec[l].h)
-        /\ UNCHANGED cvars
+        /\ UNCHANGED cvars /\ UNCHANGED locks
         /\ PostOK(Rec[l].post)
 
 \* Known finding C06-retained-boundary-lost (found by TLC on CommitmentTree.tla, confirmed on the real
@@ -127,7 +131,7 @@ TTip == /\ IsEvent("tip")
 \* the retained boundary of a pool without a commitment in the boundary block is lost when more than the
 \* checkpoint budget follows it in the batch, or when the batch lies below the pool's checkpoints.  A lost
 \* boundary is excused exactly when the transcription of the pinned update_tree (TreeOps) loses it too.
-TScan == /\ IsEvent("scan")
+TScan == /\ IsEvent("scan") /\ UNCHANGED locks
          /\ \/ /\ Rec[l].res = "ok" /\ Scan(Rec[l].from, Rec[l].n)
                /\ LET R == { h \in Rec[l].from..(Rec[l].from + Rec[l].n - 1) : h <= top }
                       own(i) == { h \in R : cmAt[h][i] > 0 }
@@ -145,7 +149,7 @@ TScan == /\ IsEvent("scan")
                /\ UNCHANGED wvars /\ UNCHANGED cvars
          /\ PostOK(Rec[l].post)
 
-TTrunc == /\ IsEvent("trunc")
+TTrunc == /\ IsEvent("trunc") /\ UNCHANGED locks
           /\ \/ /\ Rec[l].res = "ok" /\ Truncate(Rec[l].req, Rec[l].to, Rec[l].fork)
                 /\ (IOEnv.CHECK_TREES = "1") => Rec[l].to \in scanned     \* TruncateLaw: the wallet settles on a scanned height
                 /\ (IOEnv.CHECK_TREES = "1" /\ Rec[l].post.chk) =>        \* ... and nothing survives above it
@@ -175,10 +179,71 @@ TFresh == /\ IsEvent("fresh")
           /\ Rec[l].balp => /\ Rec[l].bal.S = << MinedBal("S", FALSE), MinedBal("S", TRUE) >>
                             /\ Rec[l].bal.O = << MinedBal("O", FALSE), MinedBal("O", TRUE) >>
                             /\ Rec[l].bal.I = << MinedBal("I", FALSE), MinedBal("I", TRUE) >>
-          /\ UNCHANGED wvars /\ UNCHANGED cvars
+          /\ UNCHANGED wvars /\ UNCHANGED cvars /\ UNCHANGED locks
 
-TraceInit == Init /\ l = 1 /\ grid = 0 /\ gbase = 0 /\ cmAt = << >> /\ covered = {} /\ lostOK = {} /\ mck = EmptyCk /\ mret = EmptyCk
-TraceNext == TReset \/ TBlock \/ TTip \/ TScan \/ TTrunc \/ TFresh
+\* ---------------------------------------------------------------------------------------------
+\* C08: proposals and output locks.  Propose is *relational*: which eligible notes the selector picks,
+\* and whether it succeeds when funds are neither clearly sufficient nor clearly insufficient, is its
+\* business; what it picks must be eligible, distinct, and balance exactly.
+Locked(n, target)    == n \in DOMAIN locks /\ locks[n][2] >= target          \* data_api/locking.rs "Locked"
+Acquirable(n, owner) == n \notin DOMAIN locks \/ locks[n][2] <= tip \/ locks[n][1] = owner
+SumSeq(sq) == FoldSet(LAMBDA i, acc : acc + sq[i], 0, DOMAIN sq)
+Eligible(n, v, target, anchor, minconf, admitted) ==
+    /\ n \in known /\ ninfo[n].v = v
+    /\ v > Dust
+    /\ txs[ninfo[n].t].mined # -1 /\ txs[ninfo[n].t].mined <= anchor          \* mined, at or below the anchor
+    /\ target - txs[ninfo[n].t].mined >= minconf                               \* confirmations (the weaker of the two counts)
+    /\ Counted(n, target)                                                       \* unexpired and unspent
+    /\ (~Locked(n, target) \/ locks[n][1] \in admitted)                         \* not locked by an owner the policy does not admit
+ProposalOK(r) ==
+    LET p == r.p
+        target == tip + 1
+        ins == UNION { { << p.steps[i].inputs[j][1], p.steps[i].inputs[j][2] >> : j \in DOMAIN p.steps[i].inputs } : i \in DOMAIN p.steps }
+        nin == FoldSet(LAMBDA i, acc : acc + Len(p.steps[i].inputs), 0, DOMAIN p.steps)
+        minconf == Min2(r.trusted, r.untrusted)
+    IN  /\ p.target = target /\ Len(p.steps) >= 1
+        /\ Cardinality({ x[1] : x \in ins }) = nin                               \* no note twice, within or across steps
+        /\ \A i \in DOMAIN p.steps :
+              LET st == p.steps[i]
+              IN  /\ st.anchor <= tip /\ st.anchor >= 0
+                  /\ \A j \in DOMAIN st.inputs : Eligible(st.inputs[j][1], st.inputs[j][2], target, st.anchor, minconf, SeqToSet(r.admitted))
+                  /\ st.in_total = SumSeq([j \in DOMAIN st.inputs |-> st.inputs[j][2]])
+                  /\ st.tin = 0 /\ st.prior = 0 => st.in_total = st.pay + SumSeq(st.change) + st.fee     \* balances exactly
+        /\ p.steps[1].pay = r.amount
+        /\ locks' = IF r.lock[1] >= 0
+                     THEN [n \in DOMAIN locks \cup { x[1] : x \in ins } |->
+                              IF n \in { x[1] : x \in ins } THEN << r.lock[1], target + r.lock[2] >> ELSE locks[n]]
+                     ELSE locks
+TPropose == /\ IsEvent("propose")
+            /\ \/ Rec[l].res = "ok" /\ ProposalOK(Rec[l])
+               \/ /\ Rec[l].res = "inputs-locked"       \* only a policy that spends through another owner's lock can lose the race
+                  /\ Rec[l].lock[1] >= 0 /\ Rec[l].lock[1] \notin SeqToSet(Rec[l].admitted)
+                  /\ \E n \in DOMAIN locks : locks[n][1] \in SeqToSet(Rec[l].admitted) /\ ~Acquirable(n, Rec[l].lock[1])
+                  /\ UNCHANGED locks
+               \/ Rec[l].res \in {"insufficient", "scan-required"} /\ UNCHANGED locks      \* refusals: no claim
+            /\ UNCHANGED wvars /\ UNCHANGED cvars
+            /\ PostOK(Rec[l].post)
+TLock == /\ IsEvent("lock")
+         /\ LET ns == SeqToSet(Rec[l].notes)
+            IN  \/ /\ Rec[l].res = "ok" /\ \A n \in ns : Acquirable(n, Rec[l].owner)
+                   /\ locks' = [n \in DOMAIN locks \cup ns |-> IF n \in ns THEN << Rec[l].owner, Rec[l].exp >> ELSE locks[n]]
+                \/ /\ Rec[l].res = "lock-failure" /\ \E n \in ns : ~Acquirable(n, Rec[l].owner)
+                   /\ UNCHANGED locks                                         \* all-or-nothing
+         /\ UNCHANGED wvars /\ UNCHANGED cvars
+         /\ PostOK(Rec[l].post)
+TUnlock == /\ IsEvent("unlock") /\ Rec[l].res = "ok"
+           /\ LET gone == { n \in SeqToSet(Rec[l].notes) \cap DOMAIN locks : locks[n][1] = Rec[l].owner }
+              IN  locks' = [n \in DOMAIN locks \ gone |-> locks[n]]
+           /\ UNCHANGED wvars /\ UNCHANGED cvars
+           /\ PostOK(Rec[l].post)
+TClear == /\ IsEvent("clearlocks") /\ Rec[l].res = "ok"
+          /\ Rec[l].count = Cardinality(DOMAIN locks)
+          /\ locks' = << >>
+          /\ UNCHANGED wvars /\ UNCHANGED cvars
+          /\ PostOK(Rec[l].post)
+
+TraceInit == Init /\ l = 1 /\ locks = << >> /\ grid = 0 /\ gbase = 0 /\ cmAt = << >> /\ covered = {} /\ lostOK = {} /\ mck = EmptyCk /\ mret = EmptyCk
+TraceNext == TReset \/ TBlock \/ TTip \/ TScan \/ TTrunc \/ TFresh \/ TPropose \/ TLock \/ TUnlock \/ TClear
 TraceSpec == TraceInit /\ [][TraceNext]_tvars
 
 Accepted == LET n == TLCGet("stats").diameter - 1
